@@ -233,6 +233,23 @@ fn main() {
             }
         }
     }
+    // phase 4: a case mapping that depends on context -- a capital sigma at the end of a word
+    // lower-cases to the final form, elsewhere (and alone) to the ordinary one
+    let w4 = ["ΟΣ", "ος", "οσ", "Σ", "σ", "ς"];
+    let seqs4 = sequences(w4.len(), run.pick(3, 4));
+    let texts4: Vec<String> = seqs4.iter().map(|s| s.iter().map(|i| w4[*i]).collect::<Vec<_>>().join(" ")).collect();
+    run.bounds.insert("context_sensitive_case_phase".into(), json!(format!("all ordered pairs of the {} word sequences over {w4:?} x ignore_case, single-space layout", seqs4.len())));
+    let base4 = base3 + seqs3.len();
+    for (ia, a) in texts4.iter().enumerate() {
+        if !run.unit((base4 + ia) as u64) {
+            continue;
+        }
+        for b in &texts4 {
+            for ic in [false, true] {
+                check_texts(&mut run, a, b, ic);
+            }
+        }
+    }
     let w2 = ["a", "ab", "aB", "b", "bab", "ba"];
     let seqs2 = sequences(w2.len(), run.pick(3, 4));
     let texts2: Vec<String> = seqs2.iter().map(|s| s.iter().map(|i| w2[*i]).collect::<Vec<_>>().join(" ")).collect();
